@@ -50,7 +50,7 @@ def clean(nseeds):
     import collections
     from simv import runner
     bad = 0
-    for engine, prop in ENGINES + [('world', p) for p in ('C05', 'C06', 'C08', 'C09', 'C10', 'C13', 'C16')] + \
+    for engine, prop in ENGINES + [('world', p) for p in ('C05', 'C06', 'C08', 'C09', 'C10', 'C13', 'C16', 'C17')] + \
             [('legacy', 'C01'), ('legacy', 'C02')]:
         ctx = multiprocessing.get_context('fork')
         seeds = [7919 * i + 3 for i in range(nseeds)]
